@@ -76,6 +76,12 @@ package middleware
 //@ prop C12 C13
 //@ at call refreshSession assert[refresh-only-under-lock-after-reload-and-recheck] lockObtained
 //@     && called(Load) && ret1(Load) == nil && ret0(Load) != nil && ret(needsRefresh#1) && arg(refreshSession, 3) == session
+//@ at call needsRefresh#1 assert[recheck-on-the-callers-session-after-copying-the-reloaded-state] arg(needsRefresh#1, 1) == session
+//@     && ret1(Load) == nil && ret0(Load) != nil && session.AccessToken == ret0(Load).AccessToken
+//@     && session.RefreshToken == ret0(Load).RefreshToken && session.IDToken == ret0(Load).IDToken
+//@     && session.CreatedAt == ret0(Load).CreatedAt && session.ExpiresOn == ret0(Load).ExpiresOn
+//@     && session.Email == ret0(Load).Email && session.User == ret0(Load).User
+//@ at call needsRefresh#0 assert[first-check-on-the-callers-session] arg(needsRefresh#0, 1) == session
 //@ ensures[stale-never-honoured-unchecked] ret0 == nil ==> !ret(needsRefresh#0)
 //@     || (called(Load) && ret1(Load) == nil && ret0(Load) != nil && !ret(needsRefresh#1))
 //@     || (called(validateSession) && ret(validateSession) == nil && arg(validateSession, 2) == session)
